@@ -152,64 +152,49 @@ Lemma table_accounted_ok :
   table_accounted table = true /\ goroutines_present table = true /\ unresolved_entries table = [].
 Proof. vm_compute. repeat split; reflexivity. Qed.
 
-(* every applicable cell outside the known escapes is contained: computed over the whole
-   product, then lifted *)
-Lemma contained_partial_b :
-  forallb (fun c => implb (applicable c && negb (escaped c)) (contained (verdict_of table c))) all_cells = true.
+(* every applicable cell is contained: computed over the whole product, then lifted *)
+Lemma contained_b :
+  forallb (fun c => implb (applicable c) (contained (verdict_of table c))) all_cells = true.
 Proof. vm_compute. reflexivity. Qed.
 
-Lemma contained_partial : forall c : cell,
-  applicable c = true -> escaped c = false -> contained (verdict_of table c) = true.
+Lemma contained_all : forall c : cell,
+  applicable c = true -> contained (verdict_of table c) = true.
 Proof.
-  intros c Ha He. pose proof contained_partial_b as H. rewrite forallb_forall in H.
-  specialize (H c (all_cells_complete c)). rewrite Ha, He in H. cbn in H. exact H.
+  intros c Ha. pose proof contained_b as H. rewrite forallb_forall in H.
+  specialize (H c (all_cells_complete c)). rewrite Ha in H. exact H.
 Qed.
 
-(* the guard is exact: every listed cell exists and is not contained *)
-Lemma escapes_exact_b :
-  forallb (fun c => applicable c && negb (contained (verdict_of table c))) known_escapes = true.
-Proof. vm_compute. reflexivity. Qed.
+Lemma no_known_escapes : forall c, escaped c = false.
+Proof. intros c. reflexivity. Qed.
 
-Lemma escapes_exact : forall c, escaped c = true ->
-  applicable c = true /\ contained (verdict_of table c) = false.
-Proof.
-  intros c H. unfold escaped in H. apply existsb_exists in H. destruct H as [x [Hin Heq]].
-  apply cell_eqb_eq in Heq. subst x. pose proof escapes_exact_b as E. rewrite forallb_forall in E.
-  specialize (E c Hin). apply andb_true_iff in E. destruct E as [E1 E2]. apply negb_true_iff in E2. split; assumption.
-Qed.
-
-Lemma refuted_mock_decode : verdict_of table (mk TMock Server false FDecodePanic) = ProcessDies.
-Proof. vm_compute. reflexivity. Qed.
-Lemma refuted_mock_ioplugin : verdict_of table (mk TMock Server false FIOPluginPanic) = ProcessDies.
-Proof. vm_compute. reflexivity. Qed.
-Lemma refuted_fasthttp_decode : verdict_of table (mk TFastHttp Server false FDecodePanic) = ProcessDies.
-Proof. vm_compute. reflexivity. Qed.
-Lemma refuted_fasthttp_ioplugin : verdict_of table (mk TFastHttp Server false FIOPluginPanic) = ProcessDies.
-Proof. vm_compute. reflexivity. Qed.
-Lemma refuted_websocket_client_short : verdict_of table (mk TWebsocket Client false FFrameShort) = ProcessDies.
-Proof. vm_compute. reflexivity. Qed.
-Lemma refuted_udp_client_oversize : verdict_of table (mk TUdp Client false FOversizeRequest) = ProcessDies.
-Proof. vm_compute. reflexivity. Qed.
-Lemma refuted_udp_server_oversize_response : forall p,
-  verdict_of table (mk TUdp Server p FOversizeResponse) = ServerStops.
-Proof. intros []; vm_compute; reflexivity. Qed.
-
-Lemma contained_refuted :
-  ~ (forall c : cell, applicable c = true -> contained (verdict_of table c) = true).
-Proof.
-  intros H. specialize (H (mk TUdp Client false FOversizeRequest) eq_refl).
-  rewrite refuted_udp_client_oversize in H. discriminate.
-Qed.
-
-(* the reason, in the model's own terms: the client loops' only recover sits in a helper *)
-Lemma client_loop_defer_is_indirect :
+(* the six client loops now recover in the deferred function itself *)
+Lemma client_loop_defer_is_direct :
   forallb (fun f => match defers_before table f 1 with
-                    | [d] => negb (dfn_recovers d) && existsb (fun i => match i with ICall _ => true | _ => false end) d
+                    | [d] => dfn_recovers d
                     | _ => false
                     end)
           ["socket.conn.Send"; "socket.conn.Receive"; "udp.conn.Send"; "udp.conn.Receive";
            "websocket.conn.Send"; "websocket.conn.Receive"] = true.
 Proof. vm_compute. reflexivity. Qed.
+
+(* fault cells that surface on a goroutine with an unprotected entry are stopped further in *)
+Lemma covered_b :
+  forallb (fun c => implb (applicable c) (covered_by_inner_frame table c)) all_cells = true /\
+  existsb (fun c => applicable c && on_unprotected_goroutine c) all_cells = true.
+Proof. vm_compute. split; reflexivity. Qed.
+
+Lemma covered_all : forall c : cell, applicable c = true -> on_unprotected_goroutine c = true ->
+  exists f, recovering_frame table c = Some f.
+Proof.
+  intros c Ha Hu. destruct covered_b as [H _]. rewrite forallb_forall in H.
+  specialize (H c (all_cells_complete c)). rewrite Ha in H. cbn [implb] in H.
+  unfold covered_by_inner_frame in H. unfold on_unprotected_goroutine in Hu.
+  destruct (behaviour_of c) as [g|v]; [|discriminate].
+  destruct (g_root g) as [encl target| | | |]; try discriminate.
+  rewrite Hu in H. destruct (recovering_frame table c) as [f|] eqn:E.
+  - exists f. reflexivity.
+  - discriminate.
+Qed.
 
 (* ---------------------------------------------------------------- goroutine entries *)
 
